@@ -15,6 +15,7 @@ import (
 	"sync"
 	"time"
 
+	set "github.com/deckarep/golang-set"
 	"github.com/google/gopacket/layers"
 	"github.com/omec-project/upf-epc/internal/p4constants"
 	pb "github.com/omec-project/upf-epc/pfcpiface/bess_pb"
@@ -547,6 +548,7 @@ func specSliceCmd(e int) *pb.QosCommandAddArg {
 // offset and length of the entries slice (the entries are read back with specMeterEntry).
 //@ func (c *P4rtClient) ApplyMeterEntries(methodType p4.Update_Type, entries ...*p4.MeterEntry) (err error)
 //@   trusted
+//@   requires C16.meterwrite.index: forall k int :: 0 <= k && k < len(entries) ==> entries[k] != nil && entries[k].Index != nil && 0 <= entries[k].Index.Index && entries[k].Index.Index < oracleP4MeterSize(entries[k].MeterId)
 //@   appends p4meter
 //@   ensures gfield("p4meter.method", gentry("p4meter", glen("p4meter")-1)) == uint64(methodType) && gfield("p4meter.ptr", gentry("p4meter", glen("p4meter")-1)) == uint64(sliceRef(entries)) && gfield("p4meter.off", gentry("p4meter", glen("p4meter")-1)) == uint64(lo(entries)) && gfield("p4meter.n", gentry("p4meter", glen("p4meter")-1)) == uint64(len(entries))
 
@@ -1168,6 +1170,7 @@ func specEntryStruct(e *p4.TableEntry) bool {
 
 //@ func (t *P4rtTranslator) BuildMeterEntry(meterID uint32, cellID uint32, config *p4.MeterConfig) (entry *p4.MeterEntry)
 //@   requires C16.meter.index: int64(cellID) < oracleP4MeterSize(meterID)
+//@   freshwrites p4.MeterEntry, p4.Index
 //@   ensures C16.meter.entry: entry != nil && !allocated(entry) && entry.MeterId == meterID && entry.Index != nil && entry.Index.Index == int64(cellID) && entry.Config == config
 
 //@ func (t *P4rtTranslator) BuildInterfaceTableEntry(ipNet *net.IPNet, sliceID uint8, isCore bool) (entry *p4.TableEntry, err error)
@@ -1236,3 +1239,240 @@ func specB2I(b bool) int {
 
 //@ func verifyPDR(pdr pdr) (err error)
 //@   ensures C16.verify: (err == nil) <==> pdr.precedence <= 65534
+
+// ---------------------------------------------------------------------------
+// C15 / C16 / C04: identifier pools of the UP4 plug-in (up4.go)
+// ---------------------------------------------------------------------------
+
+// Ghost view of golang-set objects (family "set", keyed by the set object's identity): membership
+// of an interface value, cardinality, "every element has dynamic type T", and two-state frames.
+func gsHas(fam string, obj int, v any) bool { panic("ghost builtin") }
+
+func gsCard(fam string, obj int) int { panic("ghost builtin") }
+
+func gsOnly[T any](fam string, obj int) bool { panic("ghost builtin") }
+
+func gsSame(fam string, obj int) bool { panic("ghost builtin") }
+
+func gsOthersSame(fam string, a, b int) bool { panic("ghost builtin") }
+
+func gsIsAdd(fam string, obj int, v any) bool { panic("ghost builtin") }
+
+func gsIsRemove(fam string, obj int, v any) bool { panic("ghost builtin") }
+
+func setHas(s set.Set, v any) bool { return gsHas("set", dynRef(s), v) }
+
+func setCard(s set.Set) int { return gsCard("set", dynRef(s)) }
+
+// specCellPool: a pool of meter cell IDs holds only uint32 values inside [1, size).
+func specCellPool(s set.Set, size int64) bool {
+	return s != nil && gsOnly[uint32]("set", dynRef(s)) &&
+		forall(func(v uint32) bool { return implies(setHas(s, v), 1 <= v && int64(v) < size) })
+}
+
+// specMeterPools: both cell pools are well-formed and are two different set objects.
+func specMeterPools(up4 *UP4, appSize, sessSize int64) bool {
+	return specCellPool(up4.appMeterCellIDsPool, appSize) && specCellPool(up4.sessMeterCellIDsPool, sessSize) &&
+		dynRef(up4.appMeterCellIDsPool) != dynRef(up4.sessMeterCellIDsPool)
+}
+
+// The sizes come from the p4info oracle: specAppCells(), specSessCells(), specCounterCells() are
+// defined next to it (/verif/contracts/ext/p4shape.ctr).
+
+//@ func (t *P4rtTranslator) getMeterSizeByID(meterID uint32) (r int64, err error)
+//@   trusted
+//@   pure
+//@   ensures C16.assume.metersize: (err == nil ==> r == oracleP4MeterSize(meterID)) && (err != nil ==> r == 0)
+
+//@ func (t *P4rtTranslator) getCounterSizeByID(counterID uint32) (r int64, err error)
+//@   trusted
+//@   pure
+//@   ensures C16.assume.countersize: (err == nil ==> r == oracleP4CounterSize(counterID)) && (err != nil ==> r == 0)
+
+//@ func (up4 *UP4) allocateAppMeterCellID() (r uint32, err error)
+//@   requires up4 != nil && specCellPool(up4.appMeterCellIDsPool, specAppCells())
+//@   ensures C15.appcell.pool: specCellPool(up4.appMeterCellIDsPool, specAppCells())
+//@   ensures C15.appcell.taken: err == nil ==> 1 <= r && int64(r) < specAppCells() && old[bool](setHas(up4.appMeterCellIDsPool, r)) && !setHas(up4.appMeterCellIDsPool, r) && gsIsRemove("set", dynRef(up4.appMeterCellIDsPool), r)
+//@   ensures C15.appcell.fail: err != nil ==> r == 0 && gsSame("set", dynRef(up4.appMeterCellIDsPool))
+//@   ensures C15.appcell.others: gsOthersSame("set", dynRef(up4.appMeterCellIDsPool), dynRef(up4.appMeterCellIDsPool))
+
+//@ func (up4 *UP4) releaseAppMeterCellID(allocated uint32)
+//@   requires up4 != nil && specCellPool(up4.appMeterCellIDsPool, specAppCells())
+//@   requires C15.apprelease.range: int64(allocated) < specAppCells()
+//@   ensures C15.apprelease.pool: specCellPool(up4.appMeterCellIDsPool, specAppCells())
+//@   ensures C15.apprelease.back: (allocated != 0 ==> gsIsAdd("set", dynRef(up4.appMeterCellIDsPool), allocated)) && (allocated == 0 ==> gsSame("set", dynRef(up4.appMeterCellIDsPool)))
+//@   ensures C15.apprelease.others: gsOthersSame("set", dynRef(up4.appMeterCellIDsPool), dynRef(up4.appMeterCellIDsPool))
+
+//@ func (up4 *UP4) allocateSessionMeterCellID() (r uint32, err error)
+//@   requires up4 != nil && specCellPool(up4.sessMeterCellIDsPool, specSessCells())
+//@   ensures C15.sesscell.pool: specCellPool(up4.sessMeterCellIDsPool, specSessCells())
+//@   ensures C15.sesscell.taken: err == nil ==> 1 <= r && int64(r) < specSessCells() && old[bool](setHas(up4.sessMeterCellIDsPool, r)) && !setHas(up4.sessMeterCellIDsPool, r) && gsIsRemove("set", dynRef(up4.sessMeterCellIDsPool), r)
+//@   ensures C15.sesscell.fail: err != nil ==> r == 0 && gsSame("set", dynRef(up4.sessMeterCellIDsPool))
+//@   ensures C15.sesscell.others: gsOthersSame("set", dynRef(up4.sessMeterCellIDsPool), dynRef(up4.sessMeterCellIDsPool))
+
+//@ func (up4 *UP4) releaseSessionMeterCellID(allocated uint32)
+//@   requires up4 != nil && specCellPool(up4.sessMeterCellIDsPool, specSessCells())
+//@   requires C15.sessrelease.range: int64(allocated) < specSessCells()
+//@   ensures C15.sessrelease.pool: specCellPool(up4.sessMeterCellIDsPool, specSessCells())
+//@   ensures C15.sessrelease.back: (allocated != 0 ==> gsIsAdd("set", dynRef(up4.sessMeterCellIDsPool), allocated)) && (allocated == 0 ==> gsSame("set", dynRef(up4.sessMeterCellIDsPool)))
+//@   ensures C15.sessrelease.others: gsOthersSame("set", dynRef(up4.sessMeterCellIDsPool), dynRef(up4.sessMeterCellIDsPool))
+
+// specCellsTaken: the meter's cells were free application-meter cells before, are not any more, and
+// nothing else left or entered the pool.
+func specAppCellsTaken(up4 *UP4, m meter) bool {
+	return !setHas(up4.appMeterCellIDsPool, m.uplinkCellID) && !setHas(up4.appMeterCellIDsPool, m.downlinkCellID) &&
+		old(func() bool {
+			return setHas(up4.appMeterCellIDsPool, m.uplinkCellID) && setHas(up4.appMeterCellIDsPool, m.downlinkCellID)
+		}) &&
+		forall(func(v uint32) bool {
+			return implies(v != m.uplinkCellID && v != m.downlinkCellID,
+				setHas(up4.appMeterCellIDsPool, v) == old(func() bool { return setHas(up4.appMeterCellIDsPool, v) }))
+		})
+}
+
+func specSessCellsTaken(up4 *UP4, m meter) bool {
+	return !setHas(up4.sessMeterCellIDsPool, m.uplinkCellID) && !setHas(up4.sessMeterCellIDsPool, m.downlinkCellID) &&
+		old(func() bool {
+			return setHas(up4.sessMeterCellIDsPool, m.uplinkCellID) && setHas(up4.sessMeterCellIDsPool, m.downlinkCellID)
+		}) &&
+		forall(func(v uint32) bool {
+			return implies(v != m.uplinkCellID && v != m.downlinkCellID,
+				setHas(up4.sessMeterCellIDsPool, v) == old(func() bool { return setHas(up4.sessMeterCellIDsPool, v) }))
+		})
+}
+
+//@ func (up4 *UP4) configureApplicationMeter(q qer, bidirectional bool) (m meter, err error)
+//@   requires up4 != nil && up4.p4RtTranslator != nil && up4.p4client != nil
+//@   requires specMeterPools(up4, specAppCells(), specSessCells())
+//@   ensures C15.appmeter.pools: specMeterPools(up4, specAppCells(), specSessCells())
+//@   ensures C15.appmeter.fail: err != nil ==> gsSame("set", dynRef(up4.appMeterCellIDsPool)) && m == meter{}
+//@   ensures C15.appmeter.nomigrate: gsSame("set", dynRef(up4.sessMeterCellIDsPool)) && gsOthersSame("set", dynRef(up4.appMeterCellIDsPool), dynRef(up4.sessMeterCellIDsPool))
+//@   ensures C15.appmeter.ok: err == nil ==> m.meterType == meterTypeApplication && specAppCellsTaken(up4, m) && (bidirectional <==> m.uplinkCellID != m.downlinkCellID)
+//@   ensures C16.appmeter.range: err == nil ==> 1 <= m.uplinkCellID && int64(m.uplinkCellID) < specAppCells() && 1 <= m.downlinkCellID && int64(m.downlinkCellID) < specAppCells()
+//@   ensures C04.appmeter.write: glen("p4meter") <= old[int](glen("p4meter"))+1 && (err == nil ==> glen("p4meter") == old[int](glen("p4meter"))+1)
+//@   ensures C04.appmeter.entries: err == nil ==> gfield("p4meter.method", gentry("p4meter", old[int](glen("p4meter")))) == uint64(p4.Update_MODIFY) && specMeterEntry(gentry("p4meter", old[int](glen("p4meter"))), 0).MeterId == p4constants.MeterPreQosPipeAppMeter && specMeterEntry(gentry("p4meter", old[int](glen("p4meter"))), 0).Index.Index == int64(m.uplinkCellID)
+//@   ensures C04.appmeter.entries2: err == nil && bidirectional ==> gfield("p4meter.n", gentry("p4meter", old[int](glen("p4meter")))) == 2 && specMeterEntry(gentry("p4meter", old[int](glen("p4meter"))), 1).MeterId == p4constants.MeterPreQosPipeAppMeter && specMeterEntry(gentry("p4meter", old[int](glen("p4meter"))), 1).Index.Index == int64(m.downlinkCellID)
+//@   ensures C04.appmeter.entries1: err == nil && !bidirectional ==> gfield("p4meter.n", gentry("p4meter", old[int](glen("p4meter")))) == 1
+
+//@ func (up4 *UP4) configureSessionMeter(q qer) (m meter, err error)
+//@   requires up4 != nil && up4.p4RtTranslator != nil && up4.p4client != nil
+//@   requires specMeterPools(up4, specAppCells(), specSessCells())
+//@   ensures C15.sessmeter.pools: specMeterPools(up4, specAppCells(), specSessCells())
+//@   ensures C15.sessmeter.fail: err != nil ==> gsSame("set", dynRef(up4.sessMeterCellIDsPool)) && m == meter{}
+//@   ensures C15.sessmeter.nomigrate: gsSame("set", dynRef(up4.appMeterCellIDsPool)) && gsOthersSame("set", dynRef(up4.appMeterCellIDsPool), dynRef(up4.sessMeterCellIDsPool))
+//@   ensures C15.sessmeter.ok: err == nil ==> m.meterType == meterTypeSession && specSessCellsTaken(up4, m) && m.uplinkCellID != m.downlinkCellID
+//@   ensures C16.sessmeter.range: err == nil ==> 1 <= m.uplinkCellID && int64(m.uplinkCellID) < specSessCells() && 1 <= m.downlinkCellID && int64(m.downlinkCellID) < specSessCells()
+//@   ensures C04.sessmeter.write: glen("p4meter") <= old[int](glen("p4meter"))+1 && (err == nil ==> glen("p4meter") == old[int](glen("p4meter"))+1)
+//@   ensures C04.sessmeter.entries: err == nil ==> gfield("p4meter.method", gentry("p4meter", old[int](glen("p4meter")))) == uint64(p4.Update_MODIFY) && gfield("p4meter.n", gentry("p4meter", old[int](glen("p4meter")))) == 2 && specMeterEntry(gentry("p4meter", old[int](glen("p4meter"))), 0).MeterId == p4constants.MeterPreQosPipeSessionMeter && specMeterEntry(gentry("p4meter", old[int](glen("p4meter"))), 0).Index.Index == int64(m.uplinkCellID) && specMeterEntry(gentry("p4meter", old[int](glen("p4meter"))), 1).MeterId == p4constants.MeterPreQosPipeSessionMeter && specMeterEntry(gentry("p4meter", old[int](glen("p4meter"))), 1).Index.Index == int64(m.downlinkCellID)
+
+// specCellPoolBelow: the pool under construction holds only uint32 values in [1, i).
+func specCellPoolBelow(s set.Set, i int) bool {
+	return s != nil && gsOnly[uint32]("set", dynRef(s)) &&
+		forall(func(v uint32) bool { return implies(setHas(s, v), 1 <= v && int(v) < i) })
+}
+
+//@ func (up4 *UP4) initMetersPools()
+//@   requires up4 != nil && up4.p4RtTranslator != nil
+//@   ensures C16.pools.init: specMeterPools(up4, specAppCells(), specSessCells())
+//@   loop 1 invariant C16.pools.l1.app: rangeidx >= 0 ==> specCellPool(up4.appMeterCellIDsPool, specAppCells())
+//@   loop 1 invariant C16.pools.l1.sess: rangeidx >= 1 ==> specCellPool(up4.sessMeterCellIDsPool, specSessCells()) && dynRef(up4.appMeterCellIDsPool) != dynRef(up4.sessMeterCellIDsPool)
+//@   loop 1 invariant C16.pools.l1.list: len(meters) == 2 && meters[0] == p4constants.MeterPreQosPipeAppMeter && meters[1] == p4constants.MeterPreQosPipeSessionMeter
+//@   loop 2 invariant C16.pools.l2.i: 1 <= i && (i <= int(meterSize) || i == 1) && meterSize <= specAppCells() && meterID == p4constants.MeterPreQosPipeAppMeter
+//@   loop 2 invariant C16.pools.l2.pool: specCellPoolBelow(up4.appMeterCellIDsPool, i)
+//@   loop 3 invariant C16.pools.l3.i: 1 <= i && (i <= int(meterSize) || i == 1) && meterSize <= specSessCells() && meterID == p4constants.MeterPreQosPipeSessionMeter
+//@   loop 3 invariant C16.pools.l3.pool: specCellPoolBelow(up4.sessMeterCellIDsPool, i)
+//@   loop 3 invariant C16.pools.l3.app: specCellPool(up4.appMeterCellIDsPool, specAppCells()) && dynRef(up4.appMeterCellIDsPool) != dynRef(up4.sessMeterCellIDsPool)
+
+// specCounterPool: a pool of counter cell IDs holds only uint64 values below size.
+func specCounterPool(s set.Set, size uint64) bool {
+	return s != nil && gsOnly[uint64]("set", dynRef(s)) &&
+		forall(func(v uint64) bool { return implies(setHas(s, v), v < size) })
+}
+
+//@ func (up4 *UP4) initCounter(counterID uint8, name string, counterSize uint64)
+//@   requires up4 != nil && int(counterID) < len(up4.counters)
+//@   ensures C16.counter.init: specCounterPool(up4.counters[counterID].counterIDsPool, counterSize) && up4.counters[counterID].maxSize == counterSize
+//@   ensures C15.counter.init.fresh: !allocated(up4.counters[counterID].counterIDsPool)
+//@   ensures C15.counter.init.frame: gsOthersSame("set", 0, 0) && sameArray(up4.counters, old[[]counter](up4.counters)) && len(up4.counters) == old[int](len(up4.counters))
+//@   ensures C15.counter.init.others: forall k int :: 0 <= k && k < len(up4.counters) && k != int(counterID) ==> up4.counters[k] == old[counter](up4.counters[k])
+//@   loop 1 invariant C16.counter.l1.i: i <= counterSize && up4.counters[counterID].maxSize == counterSize && int(counterID) < len(up4.counters)
+//@   loop 1 invariant C16.counter.l1.pool: specCounterPool(up4.counters[counterID].counterIDsPool, i) && !allocated(up4.counters[counterID].counterIDsPool)
+//@   loop 1 invariant C15.counter.l1.frame: gsOthersSame("set", dynRef(up4.counters[counterID].counterIDsPool), 0) && sameArray(up4.counters, old[[]counter](up4.counters)) && len(up4.counters) == old[int](len(up4.counters))
+//@   loop 1 invariant C15.counter.l1.others: forall k int :: 0 <= k && k < len(up4.counters) && k != int(counterID) ==> up4.counters[k] == old[counter](up4.counters[k])
+
+//@ func (up4 *UP4) allocateCounterID(p4counterID uint8) (r uint64, err error)
+//@   deadreturns 2
+//@   requires up4 != nil && int(p4counterID) < len(up4.counters)
+//@   requires specCounterPool(up4.counters[p4counterID].counterIDsPool, uint64(specCounterCells()))
+//@   ensures C15.counter.pool: specCounterPool(up4.counters[p4counterID].counterIDsPool, uint64(specCounterCells()))
+//@   ensures C15.counter.taken: err == nil ==> r < uint64(specCounterCells()) && old[bool](setHas(up4.counters[p4counterID].counterIDsPool, r)) && gsIsRemove("set", dynRef(up4.counters[p4counterID].counterIDsPool), r)
+//@   ensures C15.counter.fail: err != nil ==> r == 0 && gsSame("set", dynRef(up4.counters[p4counterID].counterIDsPool))
+//@   ensures C15.counter.others: gsOthersSame("set", dynRef(up4.counters[p4counterID].counterIDsPool), dynRef(up4.counters[p4counterID].counterIDsPool))
+
+//@ func (up4 *UP4) releaseCounterID(p4counterID uint8, val uint64)
+//@   requires up4 != nil && int(p4counterID) < len(up4.counters)
+//@   requires specCounterPool(up4.counters[p4counterID].counterIDsPool, uint64(specCounterCells()))
+//@   requires C15.counter.release.range: val < uint64(specCounterCells())
+//@   ensures C15.counter.release.pool: specCounterPool(up4.counters[p4counterID].counterIDsPool, uint64(specCounterCells()))
+//@   ensures C15.counter.release.back: gsIsAdd("set", dynRef(up4.counters[p4counterID].counterIDsPool), val)
+//@   ensures C15.counter.release.others: gsOthersSame("set", dynRef(up4.counters[p4counterID].counterIDsPool), dynRef(up4.counters[p4counterID].counterIDsPool))
+
+//@ func (up4 *UP4) initAllCounters()
+//@   requires up4 != nil && up4.p4RtTranslator != nil && len(up4.counters) == 2
+//@   ensures C16.counters.init: len(up4.counters) == 2 && specCounterPool(up4.counters[preQosCounterID].counterIDsPool, uint64(specCounterCells()))
+//@   ensures C15.counters.init.fresh: !allocated(up4.counters[preQosCounterID].counterIDsPool)
+//@   ensures C15.counters.init.frame: gsOthersSame("set", 0, 0)
+//@   loop 1 invariant C16.counters.l1.list: len(counters) == 2 && counters[0] == p4constants.CounterPreQosPipePreQosCounter && counters[1] == p4constants.CounterPostQosPipePostQosCounter && len(up4.counters) == 2
+//@   loop 1 invariant C16.counters.l1.pre: rangeidx >= 0 ==> specCounterPool(up4.counters[preQosCounterID].counterIDsPool, uint64(specCounterCells())) && !allocated(up4.counters[preQosCounterID].counterIDsPool)
+//@   loop 1 invariant C15.counters.l1.frame: gsOthersSame("set", 0, 0)
+
+// A meter cell that is owned: inside the array, not cell 0, and not in its free pool.
+func specCellOwned(pool set.Set, size int64, c uint32) bool {
+	return 1 <= c && int64(c) < size && !setHas(pool, c)
+}
+
+// specMeterOK: the cells of a configured meter belong to the pool of its type and are owned.
+func specMeterOK(up4 *UP4, m meter, appSize, sessSize int64) bool {
+	return (m.meterType == meterTypeApplication && specCellOwned(up4.appMeterCellIDsPool, appSize, m.uplinkCellID) &&
+		specCellOwned(up4.appMeterCellIDsPool, appSize, m.downlinkCellID)) ||
+		(m.meterType == meterTypeSession && specCellOwned(up4.sessMeterCellIDsPool, sessSize, m.uplinkCellID) &&
+			specCellOwned(up4.sessMeterCellIDsPool, sessSize, m.downlinkCellID) && m.uplinkCellID != m.downlinkCellID)
+}
+
+func specMetersDisjoint(a, b meter) bool {
+	return a.meterType != b.meterType ||
+		(a.uplinkCellID != b.uplinkCellID && a.uplinkCellID != b.downlinkCellID &&
+			a.downlinkCellID != b.uplinkCellID && a.downlinkCellID != b.downlinkCellID)
+}
+
+// specMetersInv (C15): every configured meter owns its cells exclusively - no cell is in a free
+// pool, and no two configured meters of the same kind share a cell.
+func specMetersInv(up4 *UP4, appSize, sessSize int64) bool {
+	return up4.meters != nil && specMeterPools(up4, appSize, sessSize) &&
+		forall(func(k meterID) bool {
+			return implies(has(up4.meters, k), specMeterOK(up4, up4.meters[k], appSize, sessSize))
+		}) &&
+		forall(func(k1, k2 meterID) bool {
+			return implies(has(up4.meters, k1) && has(up4.meters, k2) && k1 != k2, specMetersDisjoint(up4.meters[k1], up4.meters[k2]))
+		})
+}
+
+//@ func (up4 *UP4) configureMeters(qers []qer) (err error)
+//@   requires up4 != nil && up4.p4RtTranslator != nil && up4.p4client != nil
+//@   requires specMetersInv(up4, specAppCells(), specSessCells())
+//@   ensures C15.meters.inv: specMetersInv(up4, specAppCells(), specSessCells())
+//@   ensures C15.meters.others: gsOthersSame("set", dynRef(up4.appMeterCellIDsPool), dynRef(up4.sessMeterCellIDsPool))
+//@   ensures C04.meters.ok: err == nil ==> forall j int :: 0 <= j && j < len(qers) && (qers[j].qosLevel == ApplicationQos || qers[j].qosLevel == SessionQos) ==> has(up4.meters, meterID{qers[j].qerID, qers[j].fseID})
+//@   loop 1 invariant C15.meters.l1.inv: specMetersInv(up4, specAppCells(), specSessCells())
+//@   loop 1 invariant C15.meters.l1.others: gsOthersSame("set", dynRef(up4.appMeterCellIDsPool), dynRef(up4.sessMeterCellIDsPool))
+//@   loop 1 invariant C04.meters.l1.ok: forall j int :: 0 <= j && j <= rangeidx && (qers[j].qosLevel == ApplicationQos || qers[j].qosLevel == SessionQos) ==> has(up4.meters, meterID{qers[j].qerID, qers[j].fseID})
+
+//@ func (up4 *UP4) resetMeters(qers []qer)
+//@   requires up4 != nil && up4.p4client != nil
+//@   requires specMetersInv(up4, specAppCells(), specSessCells())
+//@   ensures C15.reset.inv: specMetersInv(up4, specAppCells(), specSessCells())
+//@   ensures C15.reset.others: gsOthersSame("set", dynRef(up4.appMeterCellIDsPool), dynRef(up4.sessMeterCellIDsPool))
+//@   ensures C04.reset.gone: forall j int :: 0 <= j && j < len(qers) ==> !has(up4.meters, meterID{qers[j].qerID, qers[j].fseID})
+//@   loop 1 invariant C15.reset.l1.inv: specMetersInv(up4, specAppCells(), specSessCells())
+//@   loop 1 invariant C15.reset.l1.others: gsOthersSame("set", dynRef(up4.appMeterCellIDsPool), dynRef(up4.sessMeterCellIDsPool))
+//@   loop 1 invariant C04.reset.l1.gone: forall j int :: 0 <= j && j <= rangeidx ==> !has(up4.meters, meterID{qers[j].qerID, qers[j].fseID})
